@@ -164,6 +164,9 @@ def searchCandidates : List String := Id.run do
         match verify reg with
         | .ok () => pure ()
         | .error _ => out := out ++ hist ++ ["reset"]
+      else
+        -- add_op alone took the replica beyond the entry limit
+        out := out ++ hist ++ ["reset"]
     | none => pure ()
     rid := rid + 1
   -- (b) static rejections: a foreign-address / forged / unauthorised / oversized op must not enter
